@@ -279,6 +279,7 @@ Proof. intros C H n. apply chh_preserves; assumption. Qed.
 Lemma chc_start_stage s id i k0 : ch_inv s -> CHC s (h_commits (handle_start_stage s id i k0)).
 Proof.
   intros C. unfold handle_start_stage. destruct (get_stage s i) as [st0|] eqn:Hs; [|apply chc_of_chh; [exact C|constructor]].
+  destruct (parent_not_started s st0); [apply chc_of_chh; [exact C|ch_list I]|].
   assert (Forall (Forall (op_ch (w_stages s)))
             (h_commits (if start_stage_late (s_status st0) then ok []
                         else if start_stage_waits (evaluate_readiness (rstage_of st0) (upstream s st0) (s_bypass st0)) (upstream s st0) then ok []
